@@ -521,8 +521,11 @@ Section Core.
     | Invalidated => True
     end.
 
+  (* when capacity cleanup's accounting is exact: with the F-18 patch, or when it never runs *)
+  Definition exact_cost : Prop := fix_f18 (c_fix c) = true \/ c_cap c = U64_MAX.
+
   Definition mstepx (s s' : state) (D : list drop) (dcc : Z) : Prop :=
-    mstep s s' D dcc /\ Forall (dok s) D /\ (fix_f18 (c_fix c) = true -> dcc = (- dcost D)%Z).
+    mstep s s' D dcc /\ Forall (dok s) D /\ (exact_cost -> dcc = (- dcost D)%Z).
 
   Lemma dcost_app a b : dcost (a ++ b) = (dcost a + dcost b)%Z.
   Proof.
@@ -681,7 +684,7 @@ Section Core.
       replace dcc with (0 + dcc)%Z by lia. change (drops_of i Capacity rem) with ([] ++ drops_of i Capacity rem).
       eapply mstepx_trans; [exact H1|]. split; [exact H2|]. split.
       + apply Forall_drops_of. intros ke _. split; [exact Hi | exact Hcap].
-      + intros Hf. unfold dcc. rewrite Hf, dcost_drops_of, Hfr.
+      + intros [Hf|Hf]; [|unfold U64_MAX in *; lia]. unfold dcc. rewrite Hf, dcost_drops_of, Hfr.
         assert (0 <= cost_sum rem)%Z.
         { clear. induction rem as [|x r IHr]; cbn [cost_sum fold_right]; [lia|]. fold (cost_sum r). lia. }
         lia.
